@@ -29,7 +29,20 @@ def Decl(t, n, init=None, dims=None): return {"k": "decl", "t": t, "dims": dims 
 def ES(e): return {"k": "expr", "e": e}
 def Block(b): return {"k": "block", "b": b}
 def Ret(e=None): return {"k": "ret", "e": e}
-def If(c, t, f=None): return {"k": "if", "c": c, "t": t, "f": f}
+def ends_with_open_if(s):
+    """would a following `else` attach to something inside s?"""
+    k = s["k"]
+    if k == "if":
+        return True if s["f"] is None else ends_with_open_if(s["f"])
+    if k in ("for", "while"):
+        return s["b"] is not None and ends_with_open_if(s["b"])
+    return False
+
+
+def If(c, t, f=None):
+    if f is not None and ends_with_open_if(t):
+        t = {"k": "block", "b": [t]}     # keep the else attached to this if
+    return {"k": "if", "c": c, "t": t, "f": f}
 def For(init, c, n, b): return {"k": "for", "init": init, "c": c, "n": n, "b": b}
 def While(c, b): return {"k": "while", "c": c, "b": b}
 def Do(b, c): return {"k": "do", "b": b, "c": c}
@@ -396,3 +409,118 @@ class Loose:
             items.append(Func(r.choice(["f", "g", "helper", "main"]) + str(k), args, r.choice(["int", "float", "void", "float4"]), body,
                               export=r.random() < 0.5))
         return Module(items)
+
+
+# ------------------------------------------------------------------ NSL-JSON -> Coq terms (NSL.Base.Syntax)
+_COMP = {"float": "CFloat", "int": "CInt", "uint": "CUInt"}
+_OPC = {"||": "OLor", "&&": "OLand", "==": "OEq", "!=": "ONe", "<": "OLt", "<=": "OLe", ">": "OGt", ">=": "OGe",
+        "+": "OAdd", "-": "OSub", "*": "OMul", "/": "ODiv", "%": "OMod"}
+_AOP = {"=": "AAssign", "+=": "AAddEq", "-=": "ASubEq", "*=": "AMulEq", "/=": "ADivEq"}
+
+
+def coq_pty(name):
+    import re
+    name = {"matrix3x3": "float3x3", "matrix4x4": "float4x4"}.get(name, name)
+    m = re.fullmatch(r"(float|int|uint)(\d)x(\d)", name)
+    if m:
+        return "(PMat %s %s %s)" % (_COMP[m.group(1)], m.group(2), m.group(3))
+    m = re.fullmatch(r"(float|int|uint)(\d)", name)
+    if m:
+        return "(PVec %s %s)" % (_COMP[m.group(1)], m.group(2))
+    if name in _COMP:
+        return "(PScalar %s)" % _COMP[name]
+    return None
+
+
+def coq_ty(name, dims=()):
+    if name == "void":
+        base = "TVoid"
+    else:
+        p = coq_pty(name)
+        base = "(TPrim %s)" % p if p else '(TStruct "%s"%%string)' % name
+    if dims:
+        return "(TArr %s [%s])" % (base, "; ".join(str(d) for d in dims))
+    return base
+
+
+def float_value(txt):
+    return float(txt[:-1]) if txt.endswith("f") else float(txt)
+
+
+def coq_float(v):
+    h = v.hex()
+    return "(%s)%%float" % h
+
+
+def coq_expr(e):
+    k = e["k"]
+    if k == "int":
+        return "(EInt (%d))" % e["v"]
+    if k == "float":
+        return "(EFloat %s)" % coq_float(float_value(e["txt"]))
+    if k == "id":
+        return '(EVar "%s"%%string)' % e["n"]
+    if k == "bin":
+        return "(EBin %s %s %s)" % (_OPC[e["op"]], coq_expr(e["l"]), coq_expr(e["r"]))
+    if k == "par":
+        return coq_expr(e["e"])
+    if k == "assign":
+        return "(EAssign %s %s %s)" % (_AOP[e["op"]], coq_expr(e["l"]), coq_expr(e["r"]))
+    if k in ("pre", "post"):
+        return '(%s %s "%s"%%string)' % ("EPre" if k == "pre" else "EPost", "true" if e["op"] == "++" else "false", e["n"])
+    if k == "call":
+        return '(ECall "%s"%%string [%s])' % (e["f"], "; ".join(coq_expr(a) for a in e["args"]))
+    if k == "idx":
+        return "(EIdx %s %s)" % (coq_expr(e["p"]), coq_expr(e["i"]))
+    if k == "mem":
+        return '(EMem %s "%s"%%string)' % (coq_expr(e["p"]), e["m"])
+    if k == "ctor":
+        return "(ECtor %s [%s])" % (coq_pty(e["t"]), "; ".join(coq_expr(a) for a in e["args"]))
+    raise ValueError(k)
+
+
+def _opt(x, f):
+    return "None" if x is None else "(Some %s)" % f(x)
+
+
+def coq_stmt(s):
+    k = s["k"]
+    if k == "decl":
+        return '(SDecl %s "%s"%%string %s)' % (coq_ty(s["t"], s["dims"]), s["n"], _opt(s.get("init"), coq_expr))
+    if k == "expr":
+        return "(SExpr %s)" % coq_expr(s["e"])
+    if k == "block":
+        return "(SBlock [%s])" % "; ".join(coq_stmt(x) for x in s["b"])
+    if k == "ret":
+        return "(SRet %s)" % _opt(s["e"], coq_expr)
+    if k == "if":
+        return "(SIf %s %s %s)" % (coq_expr(s["c"]), coq_stmt(s["t"]), _opt(s["f"], coq_stmt))
+    if k == "for":
+        init = "None" if s["init"] is None else '(Some (%s, "%s"%%string, %s))' % (
+            coq_ty(s["init"]["t"], s["init"]["dims"]), s["init"]["n"], _opt(s["init"].get("init"), coq_expr))
+        return "(SFor %s %s %s %s)" % (init, _opt(s["c"], coq_expr), _opt(s["n"], coq_expr), coq_stmt(s["b"]))
+    if k == "while":
+        return "(SWhile %s %s)" % (coq_expr(s["c"]), _opt(s["b"], coq_stmt))
+    if k == "do":
+        return "(SDo [%s] %s)" % ("; ".join(coq_stmt(x) for x in s["b"]["b"]), coq_expr(s["c"]))
+    if k == "break":
+        return "SBreak"
+    if k == "continue":
+        return "SContinue"
+    raise ValueError(k)
+
+
+def coq_module(m):
+    structs, globs, funcs = [], [], []
+    for it in m["items"]:
+        if it["k"] == "struct":
+            structs.append('{| s_name := "%s"%%string; s_fields := [%s] |}' % (
+                it["n"], "; ".join('(%s, "%s"%%string)' % (coq_ty(f["t"], f.get("dims", [])), f["n"]) for f in it["fields"])))
+        elif it["k"] == "global":
+            globs.append('(%s, "%s"%%string)' % (coq_ty(it["t"], it["dims"]), it["n"]))
+        elif it["k"] == "func":
+            funcs.append('{| f_name := "%s"%%string; f_export := %s; f_args := [%s]; f_ret := %s; f_body := [%s] |}' % (
+                it["n"], "true" if it["export"] else "false",
+                "; ".join('(%s, "%s"%%string)' % (coq_ty(a["t"], a.get("dims", [])), a["n"]) for a in it["args"]),
+                coq_ty(it["ret"], it.get("retdims", [])), "; ".join(coq_stmt(x) for x in it["body"]["b"])))
+    return "{| m_structs := [%s]; m_globals := [%s]; m_funcs := [%s] |}" % ("; ".join(structs), "; ".join(globs), "; ".join(funcs))
